@@ -25,6 +25,7 @@ import (
 func init() {
 	verifRegister("VerifC06_History", VerifC06_History)
 	verifRegister("VerifC06_Illegal", VerifC06_Illegal)
+	verifRegister("VerifC06_InductiveStep", VerifC06_InductiveStep)
 	verifRegister("VerifC17_StartAnywhereInWeek", VerifC17_StartAnywhereInWeek)
 }
 
@@ -273,4 +274,79 @@ func VerifC17_StartAnywhereInWeek() {
 		c06EpochLo = 0
 	}
 	c06Run(k, true)
+}
+
+// Inductive step (long sessions, any number of rollovers).  The handler is
+// put into an ARBITRARY state that satisfies the invariant "for every
+// constellation the stored week start is the true start of the week of its
+// last observation and the stored previous timestamp (GLONASS: day) is that
+// observation's" -- week numbers and timestamps symbolic.  One more message
+// of any constellation that respects the precondition (not earlier than the
+// last one, less than six days later) must be reported with its true time and
+// week start, re-establish the invariant for its constellation and leave the
+// state of the other three untouched.  New() establishes the invariant with
+// previous timestamp zero in the week of the start time (C17), so by
+// induction histories of any length are covered.
+func VerifC06_InductiveStep() {
+	c06S0 = c06Feb
+	verifTimeWindow(c06S0-2*c06Day, c06S0+9*c06Week)
+	h := New(verifTimeOf(c06S0+6*c06Day), slog.LevelInfo)
+	// arbitrary valid state
+	var prevWeek [4]int64
+	var prevTs [4]uint64
+	var prevU [4]int64
+	for c := 0; c < 4; c++ {
+		o := c06Legal(c, 10+c)
+		verifAssume(o.week <= 5)
+		prevWeek[c], prevTs[c], prevU[c] = o.week, o.ts, o.u
+		ws := verifTimeOf(c06S0 + c06WeekStart(c, o.week))
+		switch c {
+		case c06GPS:
+			h.startOfGPSWeek, h.timestampFromPreviousGPSMessage = ws, uint(o.ts)
+		case c06Galileo:
+			h.startOfGalileoWeek, h.timestampFromPreviousGalileoMessage = ws, uint(o.ts)
+		case c06Beidou:
+			h.startOfBeidouWeek, h.timestampFromPreviousBeidouMessage = ws, uint(o.ts)
+		default:
+			h.startOfGlonassWeek, h.glonassDayFromPreviousMessage = ws, uint(o.ts>>27)
+		}
+	}
+	before := *h
+	verifWitness("reached")
+	c := verifParam("c", 0, 3)
+	msm7 := verifParam("msm7", 0, 1)
+	o := c06Legal(c, 0)
+	verifAssume(o.u >= prevU[c])
+	verifAssume(o.u-prevU[c] < 6*c06Day)
+	c06Send(h, o, msm7, "step")
+	verifWitness("returned")
+	// the invariant holds again for c ...
+	ws := verifTimeOf(c06S0 + c06WeekStart(c, o.week))
+	okSelf := false
+	switch c {
+	case c06GPS:
+		okSelf = verifAnd(h.startOfGPSWeek.Equal(ws), h.timestampFromPreviousGPSMessage == uint(o.ts))
+	case c06Galileo:
+		okSelf = verifAnd(h.startOfGalileoWeek.Equal(ws), h.timestampFromPreviousGalileoMessage == uint(o.ts))
+	case c06Beidou:
+		okSelf = verifAnd(h.startOfBeidouWeek.Equal(ws), h.timestampFromPreviousBeidouMessage == uint(o.ts))
+	default:
+		okSelf = verifAnd(h.startOfGlonassWeek.Equal(ws), h.glonassDayFromPreviousMessage == uint(o.ts>>27))
+	}
+	verifAssert("invariant-re-established", okSelf)
+	// ... and the other constellations' state is untouched
+	okOthers := true
+	if c != c06GPS {
+		okOthers = verifAnd(okOthers, verifAnd(h.startOfGPSWeek.Equal(before.startOfGPSWeek), h.timestampFromPreviousGPSMessage == before.timestampFromPreviousGPSMessage))
+	}
+	if c != c06Galileo {
+		okOthers = verifAnd(okOthers, verifAnd(h.startOfGalileoWeek.Equal(before.startOfGalileoWeek), h.timestampFromPreviousGalileoMessage == before.timestampFromPreviousGalileoMessage))
+	}
+	if c != c06Beidou {
+		okOthers = verifAnd(okOthers, verifAnd(h.startOfBeidouWeek.Equal(before.startOfBeidouWeek), h.timestampFromPreviousBeidouMessage == before.timestampFromPreviousBeidouMessage))
+	}
+	if c != c06Glonass {
+		okOthers = verifAnd(okOthers, verifAnd(h.startOfGlonassWeek.Equal(before.startOfGlonassWeek), h.glonassDayFromPreviousMessage == before.glonassDayFromPreviousMessage))
+	}
+	verifAssert("other-constellations-untouched", okOthers)
 }
